@@ -28,6 +28,17 @@ Fixpoint final_sys (st : ostate) (ops : list sop) (blocks : list (Z * replica)) 
   | o :: ops', (_, r) :: blocks' => final_sys (observe (op_peer o) r st) ops' blocks'
   | _, _ => o_sys st
   end.
+(* no local update carried a clock behind the version the peer showed before it (judged on the
+   implementation's dumps): outside that, a row may legitimately sit below an old deletion record *)
+Fixpoint no_regress (st : ostate) (ops : list sop) (blocks : list (Z * replica)) : bool :=
+  match ops, blocks with
+  | o :: ops', (_, r) :: blocks' =>
+      (match o with
+       | Update p x t _ => match find_node x (nodes (get p (o_sys st))) with Some e => n_mdate e <=? t | None => true end
+       | _ => true
+       end) && no_regress (observe (op_peer o) r st) ops' blocks'
+  | _, _ => true
+  end.
 Definition quiet_blocks (k : nat) (blocks : list (Z * replica)) : bool :=
   forallb (fun b => Z.eqb (fst b) 0) (skipn (length blocks - k) blocks).
 
@@ -43,6 +54,9 @@ Definition spec_C03 (c : c03case) (obs : list Z) : bool :=
       && quiet_blocks (length (c03_final c)) blocks
       (* ... and then every member shows the same rows and the same deletion records *)
       && all_agree (final_sys st0 (c03_ops c) blocks)
+      (* ... and the converged content is coherent: no member shows a row together with a deletion
+         record that covers it *)
+      && (negb (no_regress st0 (c03_ops c) blocks) || forallb coherent (final_sys st0 (c03_ops c) blocks))
   end.
 
 (* classes of histories on which the tree is known to violate the property (known_findings.d/C03.json),
